@@ -24,65 +24,125 @@ Definition is_exc {A} (x : out A) : Prop := match x with Raise _ => True | _ => 
 Definition junk {A} (x : out A) : Prop := match x with Ok _ | Raise _ => False | _ => True end.
 
 (* mf: the computation under fail-fast options, mc: under collecting options.
-   Outcomes outside the modelled part (OutOfFuel / Unmodelled / Diverge) on either side make the
-   comparison void; they are excluded by the final theorems' statements. *)
+   Either both runs record no new error and then agree (lockstep), or both have recorded one
+   (from the first handle_error on, the fail-fast run is on its way out and the collecting run is
+   poisoned).  Outcomes outside the modelled part (OutOfFuel / Unmodelled / Diverge) on either
+   side void the comparison; the final theorems exclude them in their statements. *)
 Definition sim {A} (mf mc : M A) : Prop :=
   forall sf sc, seq sf sc ->
     let '(sf', rf) := mf sf in
     let '(sc', rc) := mc sc in
     junk rf \/ junk rc \/
-    ((nerr sc' = nerr sc -> req rf rc /\ seq sf' sc') /\
-     (nerr sc < nerr sc' -> is_exc rf)%nat).
+    (nerr sf' = nerr sf /\ nerr sc' = nerr sc /\ req rf rc /\ seq sf' sc') \/
+    (nerr sf < nerr sf' /\ nerr sc < nerr sc')%nat.
 
-(* the collecting computation never forgets a recorded error, from any state *)
+(* no computation ever forgets a recorded error, from any state *)
 Definition mono {A} (m : M A) : Prop := forall s, (nerr s <= nerr (fst (m s)))%nat.
 
+Lemma sim_ext {A} (mf mf' mc mc' : M A) :
+  (forall s, mf s = mf' s) -> (forall s, mc s = mc' s) -> sim mf' mc' -> sim mf mc.
+Proof. intros H1 H2 H sf sc Hs. rewrite H1, H2. apply H. exact Hs. Qed.
+Lemma mono_ext {A} (m m' : M A) : (forall s, m s = m' s) -> mono m' -> mono m.
+Proof. intros H1 H s. rewrite H1. apply H. Qed.
+
 Lemma sim_ret {A} (a : A) : sim (ret a) (ret a).
-Proof. intros sf sc H. cbn. right; right. split; [intros _; split; [reflexivity|exact H]|lia]. Qed.
+Proof. intros sf sc H. cbn. right; right; left. repeat split; auto; apply H. Qed.
 Lemma mono_ret {A} (a : A) : mono (ret a).
 Proof. intros s. cbn. lia. Qed.
 
-Lemma sim_lift {A} (x : out A) : sim (lift x) (lift x).
+Lemma sim_lift_rel {A} (x y : out A) : junk x \/ junk y \/ req x y -> sim (lift x) (lift y).
 Proof.
-  intros sf sc H. cbn. destruct x; cbn; auto;
-    right; right; (split; [intros _; split; [reflexivity || exact I|exact H]|lia]).
+  intros H sf sc Hs. cbn. destruct H as [H|[H|H]]; auto. right; right; left. repeat split; auto; apply Hs.
 Qed.
+Lemma req_refl {A} (x : out A) : junk x \/ req x x.
+Proof. destruct x; cbn; auto. Qed.
+Lemma sim_lift {A} (x : out A) : sim (lift x) (lift x).
+Proof. apply sim_lift_rel. destruct (req_refl x); auto. Qed.
 Lemma mono_lift {A} (x : out A) : mono (lift x).
 Proof. intros s. cbn. lia. Qed.
 
+(* try: m, then k  except Exception as e: h e *)
+Definition mtry {A B} (m : M A) (k : A -> M B) (h : exn -> M B) : M B :=
+  fun s => let '(s1, r) := m s in
+           match r with
+           | Ok a => k a s1
+           | Raise e => h e s1
+           | Diverge => (s1, Diverge) | OutOfFuel => (s1, OutOfFuel) | Unmodelled => (s1, Unmodelled)
+           end.
+
+Lemma mono_mtry {A B} (m : M A) (k : A -> M B) (h : exn -> M B) :
+  mono m -> (forall a, mono (k a)) -> (forall e, mono (h e)) -> mono (mtry m k h).
+Proof.
+  intros Hm Hk Hh s. unfold mtry. specialize (Hm s). destruct (m s) as [s1 [a|e| | |]]; cbn [fst] in *; try exact Hm.
+  - specialize (Hk a s1). lia.
+  - specialize (Hh e s1). lia.
+Qed.
+
+Lemma sim_mtry {A B} (mf mc : M A) (kf kc : A -> M B) (hf hc : exn -> M B) :
+  sim mf mc -> mono mf -> mono mc ->
+  (forall a, sim (kf a) (kc a)) -> (forall a, mono (kf a)) -> (forall a, mono (kc a)) ->
+  (forall e e', sim (hf e) (hc e')) -> (forall e, mono (hf e)) -> (forall e, mono (hc e)) ->
+  sim (mtry mf kf hf) (mtry mc kc hc).
+Proof.
+  intros Hm Hmf Hmc Hk Hkf Hkc Hh Hhf Hhc sf sc Hs. unfold mtry.
+  specialize (Hm sf sc Hs). pose proof (Hmf sf) as Hgf. pose proof (Hmc sc) as Hgc.
+  destruct (mf sf) as [sf1 rf1]. destruct (mc sc) as [sc1 rc1]. cbn [fst] in *.
+  (* what follows the first stage never forgets an error *)
+  assert (Hf : forall sf2 rf2, (match rf1 with Ok a => kf a sf1 | Raise e => hf e sf1 | Diverge => (sf1, Diverge)
+                | OutOfFuel => (sf1, OutOfFuel) | Unmodelled => (sf1, Unmodelled) end) = (sf2, rf2) -> (nerr sf1 <= nerr sf2)%nat).
+  { intros sf2 rf2 E. destruct rf1 as [a|e| | |]; try (injection E as <- _; lia).
+    - pose proof (Hkf a sf1) as Hx. rewrite E in Hx. exact Hx.
+    - pose proof (Hhf e sf1) as Hx. rewrite E in Hx. exact Hx. }
+  assert (Hc : forall sc2 rc2, (match rc1 with Ok a => kc a sc1 | Raise e => hc e sc1 | Diverge => (sc1, Diverge)
+                | OutOfFuel => (sc1, OutOfFuel) | Unmodelled => (sc1, Unmodelled) end) = (sc2, rc2) -> (nerr sc1 <= nerr sc2)%nat).
+  { intros sc2 rc2 E. destruct rc1 as [a|e| | |]; try (injection E as <- _; lia).
+    - pose proof (Hkc a sc1) as Hx. rewrite E in Hx. exact Hx.
+    - pose proof (Hhc e sc1) as Hx. rewrite E in Hx. exact Hx. }
+  destruct (match rf1 with Ok a => kf a sf1 | Raise e => hf e sf1 | Diverge => (sf1, Diverge)
+            | OutOfFuel => (sf1, OutOfFuel) | Unmodelled => (sf1, Unmodelled) end) as [sf2 rf2] eqn:Ef.
+  destruct (match rc1 with Ok a => kc a sc1 | Raise e => hc e sc1 | Diverge => (sc1, Diverge)
+            | OutOfFuel => (sc1, OutOfFuel) | Unmodelled => (sc1, Unmodelled) end) as [sc2 rc2] eqn:Ec.
+  specialize (Hf _ _ eq_refl). specialize (Hc _ _ eq_refl).
+  destruct Hm as [Hj|[Hj|[(Hcf & Hcc & Hr & Hs1)|(Hdf & Hdc)]]].
+  - destruct rf1; cbn in Hj; try contradiction; injection Ef as _ <-; left; exact I.
+  - destruct rc1; cbn in Hj; try contradiction; injection Ec as _ <-; right; left; exact I.
+  - destruct rf1 as [a|e| | |], rc1 as [b|e'| | |]; cbn in Hr; try contradiction;
+      try (injection Ef as _ <-; left; exact I).
+    + subst b. specialize (Hk a sf1 sc1 Hs1). rewrite Ef, Ec in Hk.
+      destruct Hk as [Hj|[Hj|[(H1 & H2 & H3 & H4)|(H1 & H2)]]]; auto.
+      * right; right; left. repeat split; try lia; auto; apply H4.
+      * right; right; right. lia.
+    + specialize (Hh e e' sf1 sc1 Hs1). rewrite Ef, Ec in Hh.
+      destruct Hh as [Hj|[Hj|[(H1 & H2 & H3 & H4)|(H1 & H2)]]]; auto.
+      * right; right; left. repeat split; try lia; auto; apply H4.
+      * right; right; right. lia.
+  - right; right; right. lia.
+Qed.
+
+(* bind is try with a handler that re-raises *)
+Lemma mbind_mtry {A B} (m : M A) (k : A -> M B) s : mbind m k s = mtry m k (fun e => lift (Raise e)) s.
+Proof. unfold mbind, mtry, lift. destruct (m s) as [s1 [a|e| | |]]; reflexivity. Qed.
+
+Lemma sim_raise {A} e e' : sim (@lift A (Raise e)) (lift (Raise e')).
+Proof. apply sim_lift_rel. right; right. exact I. Qed.
+
 Lemma sim_bind {A B} (mf mc : M A) (kf kc : A -> M B) :
-  sim mf mc -> mono mc -> (forall a, sim (kf a) (kc a)) -> (forall a, mono (kc a)) ->
+  sim mf mc -> mono mf -> mono mc ->
+  (forall a, sim (kf a) (kc a)) -> (forall a, mono (kf a)) -> (forall a, mono (kc a)) ->
   sim (mbind mf kf) (mbind mc kc).
 Proof.
-  intros Hm Hmono Hk Hkmono sf sc Hs. unfold mbind.
-  specialize (Hm sf sc Hs). pose proof (Hmono sc) as Hge.
-  destruct (mf sf) as [sf1 rf1]. destruct (mc sc) as [sc1 rc1]. cbn [fst] in Hge.
-  destruct Hm as [Hj|[Hj|(Hclean & Hpois)]].
-  - destruct rf1; cbn in Hj; try contradiction; destruct (match rc1 with Ok a => _ | _ => _ end); left; exact I.
-  - destruct rc1; cbn in Hj; try contradiction;
-      destruct (match rf1 with Ok a => _ | _ => _ end); right; left; exact I.
-  - destruct (Nat.eq_dec (nerr sc1) (nerr sc)) as [Heq|Hne].
-    + destruct (Hclean Heq) as [Hr Hs1].
-      destruct rf1 as [a| | | |], rc1 as [b| | | |]; cbn in Hr; try contradiction;
-        try (right; right; split; [intros _; split; [exact I|exact Hs1]|lia]);
-        try (left; exact I).
-      subst b. specialize (Hk a sf1 sc1 Hs1).
-      destruct (kf a sf1) as [sf2 rf2]. destruct (kc a sc1) as [sc2 rc2].
-      destruct Hk as [Hj|[Hj|(Hclean2 & Hpois2)]]; [left; exact Hj|right; left; exact Hj|].
-      right; right. split; [intros H2; apply Hclean2; lia|intros H2; apply Hpois2; lia].
-    + assert (Hlt : (nerr sc < nerr sc1)%nat) by lia.
-      specialize (Hpois Hlt). destruct rf1 as [a| | | |]; cbn in Hpois; try contradiction.
-      destruct rc1 as [b| | | |]; try (right; left; exact I).
-      * pose proof (Hkmono b sc1) as Hm2. destruct (kc b sc1) as [sc2 rc2]. cbn [fst] in Hm2.
-        right; right. split; [intros H2; lia|intros _; exact I].
-      * right; right. split; [intros H2; lia|intros _; exact I].
+  intros. eapply sim_ext; [apply mbind_mtry|apply mbind_mtry|].
+  apply sim_mtry; auto; intros; try apply sim_raise; apply mono_lift.
 Qed.
 
 Lemma mono_bind {A B} (m : M A) (k : A -> M B) : mono m -> (forall a, mono (k a)) -> mono (mbind m k).
 Proof.
-  intros Hm Hk s. unfold mbind. specialize (Hm s). destruct (m s) as [s1 [a| | | |]]; cbn [fst] in *; try exact Hm.
-  specialize (Hk a s1). lia.
+  intros Hm Hk. eapply mono_ext; [apply mbind_mtry|]. apply mono_mtry; auto. intros; apply mono_lift.
 Qed.
+
+(* mcatch is try with the identity continuation *)
+Lemma mcatch_mtry {A} (m : M A) (h : exn -> M A) s : mcatch m h s = mtry m (fun a => ret a) h s.
+Proof. unfold mcatch, mtry, ret. destruct (m s) as [s1 [a|e| | |]]; reflexivity. Qed.
 
 (* ---- the primitives of RuntimeContext ---- *)
 (* options that differ at most in collect_errors / max_errors; of fails fast, oc collects *)
@@ -104,7 +164,7 @@ Proof.
   intros (Hf & Hc & _) sf sc [Hn Ht]. unfold handle_error. rewrite Hf, Hc. cbn [negb].
   replace (fr || true) with true by (destruct fr; reflexivity).
   destruct (fr || false); [|destruct (o_max_errors oc) as [m|]; [destruct (m <=? _)|]];
-    right; right; (split; [unfold nerr; cbn [e_errors]; rewrite app_length; cbn; lia|intros _; exact I]).
+    right; right; right; unfold nerr; cbn [e_errors]; rewrite !app_length; cbn; lia.
 Qed.
 Lemma mono_handle_error o e fr : mono (handle_error o e fr).
 Proof.
@@ -119,23 +179,22 @@ Proof.
   unfold nerr, ntmp in Hn, Ht.
   destruct (e_errors sf) as [|a l] eqn:E1, (e_errors sc) as [|b m] eqn:E2; cbn in Hn; try discriminate;
   destruct (e_tmp sf) as [|c p] eqn:E3, (e_tmp sc) as [|d q] eqn:E4; cbn in Ht; try discriminate;
-    right; right; (split; [intros _; split; [exact I || reflexivity|exact Hs]|lia]).
+    right; right; left; (repeat split; auto; try exact I; try apply Hs).
 Qed.
 Lemma mono_raise_error : mono raise_error.
 Proof. intros s. unfold raise_error. destruct (e_errors s), (e_tmp s); cbn; lia. Qed.
 
 Lemma sim_collect_tmp e e' : sim (collect_tmp_error e) (collect_tmp_error e').
 Proof.
-  intros sf sc [Hn Ht]. unfold collect_tmp_error. right; right.
-  split; [intros _; split; [reflexivity|]|unfold nerr; cbn; lia].
-  split; unfold nerr, ntmp in *; cbn [e_errors e_tmp]; [exact Hn|rewrite !app_length; cbn; lia].
+  intros sf sc [Hn Ht]. unfold collect_tmp_error. right; right; left.
+  repeat split; unfold nerr, ntmp in *; cbn [e_errors e_tmp]; auto. rewrite !app_length; cbn; lia.
 Qed.
 Lemma mono_collect_tmp e : mono (collect_tmp_error e).
 Proof. intros s. unfold nerr. cbn. lia. Qed.
 Lemma sim_clear_tmp : sim clear_tmp_error clear_tmp_error.
 Proof.
-  intros sf sc [Hn Ht]. unfold clear_tmp_error. right; right.
-  split; [intros _; split; [reflexivity|split; [exact Hn|reflexivity]]|unfold nerr; cbn; lia].
+  intros sf sc [Hn Ht]. unfold clear_tmp_error. right; right; left.
+  repeat split; unfold nerr, ntmp in *; cbn [e_errors e_tmp]; auto.
 Qed.
 Lemma mono_clear_tmp : mono clear_tmp_error.
 Proof. intros s. unfold nerr. cbn. lia. Qed.
